@@ -2113,9 +2113,9 @@ class PseudoNetCDFFile(PseudoNetCDFSelfReg, object):
                         else:
                             sliceoi.append(si.ravel()[ii])
                     sliceoi = tuple(sliceoi)
-                    point_arrays.append(np.expand_dims(
+                    point_arrays.append(np.ma.expand_dims(
                         varo[sliceoi], axis=concatax))
-                newvals = np.concatenate(point_arrays, axis=concatax)
+                newvals = np.ma.concatenate(point_arrays, axis=concatax)
             else:
                 # apply the selectors one axis at a time (orthogonal
                 # selection); indexing with the whole tuple lets numpy move
